@@ -21,6 +21,7 @@ from ..poly import Poly, Rat, det, cofactor
 from ..symval import SymExec, State, Ptr, Vec, Unsupported
 
 EXPLANATION = (
+    'Trajectory.superpose is evaluated as a whole (sa/tensym.py, views share memory) on model trajectories: all atoms / a selection / an explicit array of all atoms / distinct reference atoms, reference another trajectory or the trajectory itself; what reaches the kernel in each role (roles read off the kernel wrapper), what self.xyz is afterwards, cached traces dropped.  Further: '
     "Optimality over the rotation group is a numerical statement, but the QCP algorithm reaches it through exact polynomial identities, and those are decided here for all inputs by algebraic value "
     "numbering of the C sources (every computed scalar and SIMD lane expanded into a polynomial normal form over the inputs; no execution, no solver): the key matrix K built from the inner-product "
     "matrix M, its characteristic polynomial and the coefficients handed to the quartic solver, the msd formula, the eigenvector as cofactors of K - lambda I, the rotation matrix as a proper rotation, "
